@@ -119,9 +119,14 @@ def variants_of(pat, prefix, what):
     return vs
 
 
-def total_map(arm_list, variants, prefix, conv, what):
+def total_map(arm_list, variants, prefix, conv, what, wildcard=False):
+    """wildcard: a final `_ => e` arm is accepted and stands for every variant not named before it"""
     res = {}
-    for pat, expr in arm_list:
+    for n, (pat, expr) in enumerate(arm_list):
+        if wildcard and pat.strip() == '_' and n == len(arm_list) - 1:
+            for v in variants:
+                res.setdefault(v, conv(expr))
+            continue
         for v in variants_of(pat, prefix, what):
             if v in res:
                 raise Shape('variant %s matched twice in %s' % (v, what))
@@ -193,6 +198,17 @@ def main(src, out):
             return None
         return self_variant(e)
     neg = total_map(arms(match_body(fn_block(tree, impl_op, 'negate', 'MarkerOperator::negate'), 'negate'), 'negate'), ops, 'Self', neg_conv, 'MarkerOperator::negate')
+
+    def pep440_conv(e):
+        e = e.strip()
+        if e == 'None':
+            return None
+        m = re.fullmatch(r'Some\(pep440_rs::Operator::(\w+)\)', e)
+        if not m:
+            raise Shape('to_pep440_operator: unexpected expression %r' % e)
+        return m.group(1)
+    to440 = total_map(arms(match_body(fn_block(tree, impl_op, 'to_pep440_operator', 'MarkerOperator::to_pep440_operator'), 'to_pep440_operator'), 'to_pep440_operator'),
+                      ops, 'Self', pep440_conv, 'MarkerOperator::to_pep440_operator', wildcard=True)
 
     def lit(e):
         m = re.fullmatch(r'(?:f\.write_str\()?"([^"\\]*)"\)?', e.strip())
@@ -304,6 +320,7 @@ def main(src, out):
     fn('invert', 'rop', 'O_', ops, inv, lambda r: 'O_' + r, 'rop')
     fn('negate', 'rop', 'O_', ops, neg, lambda r: 'None' if r is None else 'Some O_' + r, 'option rop')
     fn('op_text', 'rop', 'O_', ops, op_disp, lambda r: '"%s"' % r, 'string')
+    fn('to_pep440_operator', 'rop', 'O_', ops, to440, lambda r: 'None' if r is None else 'Some "%s"' % r, 'option string')
     w.append('Definition op_of_text : list (string * rop) := [%s].' % '; '.join('("%s", O_%s)' % (t, o) for t, o in op_from))
     fn('vkey_text', 'vkey', 'V_', vkeys, vdisp, lambda r: '"%s"' % r, 'string')
     fn('skey_text', 'skey', 'S_', skeys, sdisp, lambda r: '"%s"' % r, 'string')
